@@ -161,7 +161,7 @@ def obligations(tier):
             tot = None
             for k in ks:
                 k = np.asarray(k, dtype=object)
-                term = np.conj(k.T) @ k if k.dtype != object else _dag(k) @ k
+                term = _dag(k) @ k
                 tot = term if tot is None else tot + term
             cx.close(tot, np.eye(len(ks[0])), label=f'{name}.trace_preserving')
 
